@@ -34,3 +34,17 @@ done
 wait
 git -C /repo worktree prune
 sort $OUT/results.jsonl
+# keep the latest result per seed in /verif/seeded/RESULTS.jsonl (input of tools/design_tables.py)
+python3 - <<PY
+import json,os,subprocess
+p='/verif/seeded/RESULTS.jsonl'
+cur={}
+if os.path.exists(p):
+    for l in open(p):
+        if l.strip(): e=json.loads(l); cur[e['seed']]=e
+head=subprocess.check_output(['git','-C','/verif','rev-parse','--short','HEAD'],text=True).strip()
+for l in open('$OUT/results.jsonl'):
+    if l.strip():
+        e=json.loads(l); e['tier']='$TIER'; e['verif_commit']=head; cur[e['seed']]=e
+open(p,'w').write(''.join(json.dumps(cur[k])+'\n' for k in sorted(cur)))
+PY
